@@ -23,7 +23,7 @@ Definition g_entry (leader_is_sum : bool) : grammar :=
     mkRule (nm "P") [] (lit1 9%N 49%Z """1""") false false ].
 
 Definition cfg_entry (leader_is_sum : bool) : cfg :=
-  mkCfg faithful u0 (mkTmpl false false true false) (mkOpts false false false true false 0%N [] [])
+  mkCfg faithful u0 (mkTmpl false false true false) (mkOpts false false false true false 0%N [] [] [])
         [49; 43; 49]%N (g_entry leader_is_sum) env0.
 
 Definition value_of (o : outcome) : option val := match o with Returned v _ _ => Some v | _ => None end.
